@@ -81,6 +81,8 @@ structure Mon where
   attached : List Nat := []
   dropped : List Nat := []
   stopped : Bool := false
+  /-- what the value lane held when the `on_get` handler of the HTTP lane ran (on this line) -/
+  httpGet : Option Int := none
   deriving Repr
 
 def pk (r lane : Nat) : Nat := r * 10 + lane
@@ -159,6 +161,10 @@ def Mon.history (m : Mon) (h : String) : Mon × Option String :=
   | ["map", "clr"] =>
     let m1 := m.curMap.foldl (fun (acc : Mon) p => noteKey acc p.1 none) m
     ({ m1 with mapHist := m1.mapHist ++ [(m.t, .clr)], curMap := [] }, none)
+  -- the HTTP lane's handlers note that they ran; the history is in execution order, so the value lane's content at
+  -- the moment `on_get` ran is the monitor's current value here
+  | ["http", "get", _] => ({ m with httpGet := some m.curVal }, none)
+  | ["http", _, _] => (m, none)
   | _ => (m, some "unparsable-history")
 
 /-- index ≥ start of the first history entry with this value -/
@@ -325,8 +331,49 @@ def removedKeys (hs : List String) : List Nat :=
     | ["map", "rem", k] => (parseInt k).map ikey
     | _ => none).mergeSort (· ≤ ·)
 
+/-- Map key used by the HTTP handlers (and `on_command`) for the number `n`: `MAP_KEYS[n % 4]` of the rig. -/
+def mapKeyOf (n : Int) : Int := [2, 10, 33, 7].getD (n % 4).toNat 0
+
+/-- An HTTP lane request (`http`: the response was awaited, `httpd`: the response receiver was dropped before the
+request was sent; that op always settles). `post`/`put n` make the handler change a lane (n%3: 0 value lane := n,
+1 map entry `mapKeyOf n` := n, 2 push n to the supply lane): the change is logged where it happens (`on_event` /
+`on_update` of the lane), synchronously with the handler, so it must be in the history of this very line. From there on
+the ordinary rules (never stale at quiescence, replicas converge, supply exactly once) cover it. `post` changes the lane
+in a non-final step of the handler, `put` in its final step: only the latter can be hit by the "response receiver
+dropped" branch of `HttpLifecycleHandler::step`, which has its own reasons. `get` answers with the value lane's content
+at the time the handler ran. `m` is the monitor after this line's history. -/
+def Mon.httpCheck (m : Mon) (kind method : String) (n : Int) (hs ws : List String) : Option String :=
+  if m.stopped then none else
+  let st := (fieldOf ws "st").getD "none"
+  let b := (fieldOf ws "b").getD "-"
+  let dropped := kind == "httpd"
+  if dropped && st != "dropped" then some "http-response-unexpected"
+  else if method == "get" then
+    if dropped then none
+    else if st != "200" then some "http-response-unexpected"
+    else match m.httpGet with
+      | none => some "http-response-unexpected"
+      | some v => if b.toInt? == some v then none else some "http-get-stale"
+  else if method == "head" then
+    if dropped || (st == "200" && b == "-") then none else some "http-response-unexpected"
+  else if method == "delete" then
+    if dropped || st == "405" then none else some "http-response-unexpected"
+  else if method == "post" || method == "put" then
+    if !dropped && st != "200" then some "http-response-unexpected" else
+    let lost := dropped && method == "put"
+    let a := n % 3
+    if a == 0 then
+      if hs.contains s!"val:{n}" then none
+      else some (if lost then "http-dropped-response-change-lost" else "http-handler-change-not-applied")
+    else if a == 1 then
+      if hs.contains s!"map:upd:{mapKeyOf n}:{n}" then none
+      else some (if lost then "map-http-dropped-response-change-lost" else "map-http-handler-change-not-applied")
+    else
+      if hs.contains s!"sup:{n}" then none else some "supply-http-handler-not-run"
+  else some "unparsable-op"
+
 def Mon.step (m : Mon) (line : String) (out : String) : Mon × Option String :=
-  let m := { m with t := m.t + 1 }
+  let m := { m with t := m.t + 1, httpGet := none }
   let ws := words out
   let burst := line.startsWith "!"
   let settledBefore := !m.unsettled && !burst
@@ -381,6 +428,12 @@ def Mon.step (m : Mon) (line : String) (out : String) : Mon × Option String :=
               if removedKeys hs == expected then r1 else (r1.1, some "map-take-drop-wrong-keys")
             | none => r1
           | none => r1
+        else r1
+      | none, [kind, method, n] =>
+        if kind == "http" || kind == "httpd" then
+          match n.toInt? with
+          | some n => (r1.1, r1.1.httpCheck kind method n hs ws)
+          | none => (r1.1, some "unparsable-op")
         else r1
       | _, _ => r1
     match r1.2 with
